@@ -4,10 +4,11 @@
    them, resp. those without such a reference (so an unaltered file is never named: no false alarm; mtimes do not
    occur in the model at all); (2) the exit-code selection of verify (11 > 21 > 10 > 0), diff (10 > 21 > 0) and create
    (11 > 10 > 30 > 0) from the reported sets; (3) what is visited is exactly the non-ignored part of the tree (C02/C12
-   traversal theorems) and ignored paths are filtered from the missing report.  The end-to-end statement is proved for the base case (fresh flat tree: seal, then verify / diff exit 0);
-   for histories with several generations, nested histories and mutated trees the composition is carried by the
-   lockstep correspondence. *)
-From MHL Require Import Model.Commands Gen.Generated Proofs.BaseFacts Proofs.TreeFacts Proofs.VerifyFacts Proofs.FreshFacts.
+   traversal theorems) and ignored paths are filtered from the missing report.  The end-to-end statement ("on a tree that is unchanged since it was sealed, create, verify and diff all exit 0,
+   whatever formats or ignore patterns were used") is proved for flat trees (one history at the root, no renames) with
+   ANY number of generations: C03_unchanged_tree_all_exit_0 and C03_flat_cycle below; for nested histories and
+   renames the composition is carried by the lockstep correspondence. *)
+From MHL Require Import Model.Commands Gen.Generated Proofs.BaseFacts Proofs.TreeFacts Proofs.VerifyFacts Proofs.FreshFacts Proofs.HistFacts Proofs.FlatFacts.
 
 Theorem C03_verify_reports_exactly : forall Hb matches C cdig t ipats ifile hs,
   load C cdig t = inl hs -> lh_gens (root_hist hs) <> [] ->
@@ -65,6 +66,52 @@ Theorem C03_seal_then_verify_fresh_tree : forall Hb matches C cdig ser kids h0 r
   verify_result Hb matches C cdig true (fst run) [] [] = Some (mkVR 0 [] [] []).
 Proof. exact fresh_create_then_verify. Qed.
 Print Assumptions C03_seal_then_verify_fresh_tree.
+
+(* END TO END, any number of generations (flat tree: one history, at the root): seal a tree that has no history with
+   any formats, -n or not, any patterns; then run `create` any number of times with any formats (-n or not) on the
+   untouched tree.  EVERY run exits 0, and verify and diff on the result exit 0 with empty reports -- for every tree,
+   matcher and hash primitive.  (Composes everything above plus: the per-file decision on consistent histories, the
+   validation of the session, commit onto a well-formed history, reloading, pattern-list stability.) *)
+Theorem C03_unchanged_tree_all_exit_0 : forall Hb matches C cdig ser kids h0 req0 nd0 ip ifl rs,
+  wf_tree C (Dir None kids) -> load C cdig (Dir None kids) = inl [h0] -> req0 <> [] -> Forall (fun x => fst x <> []) rs ->
+  let r0 := create_folder Hb matches C cdig ser (Dir None kids) req0 nd0 false ip ifl in
+  let r := run_creates Hb matches C cdig ser (fst r0) rs in
+  o_outcome (snd r0) = Exit 0 /\ Forall (fun o => o = Exit 0) (snd r) /\
+  verify_result Hb matches C cdig false (fst r) [] [] = Some (mkVR 0 [] [] []) /\
+  verify_result Hb matches C cdig true (fst r) [] [] = Some (mkVR 0 [] [] []).
+Proof. exact seal_then_sequences. Qed.
+Print Assumptions C03_unchanged_tree_all_exit_0.
+
+(* the hypotheses are satisfiable: a concrete tree with a sub-folder, no history anywhere *)
+Example C03_unchanged_tree_nonvacuous :
+  let kids := [([97%N], @File unit [1%N; 2%N]); ([98%N], @Dir unit None [([99%N], @File unit [3%N])])] in
+  wf_tree unit (Dir None kids) /\ load unit (fun _ => []) (Dir None kids) = inl [lhist_of unit [] None None].
+Proof.
+  cbn zeta. split; [|reflexivity].
+  constructor; [cbn; repeat constructor; cbn; intuition discriminate|].
+  repeat constructor; cbn; intuition.
+Qed.
+
+(* the same as an invariant, from ANY flat history (not only one this tool wrote from scratch): `flat_state n old kids`
+   says the history is well-formed with n generations, has no renames and no nested references, every recorded entry
+   of a path that is a file now is that file's digest, and nothing recorded is missing.  Then `create` with any
+   formats exits 0, the result satisfies the invariant again with n+1 generations, and verify / diff exit 0. *)
+Theorem C03_flat_cycle : forall Hb matches C cdig ser n old kids req no_dh,
+  flat_state Hb matches C cdig n old kids -> req <> [] ->
+  let run := create_folder Hb matches C cdig ser (Dir (Some old) kids) req no_dh false [] [] in
+  o_outcome (snd run) = Exit 0 /\
+  exists old', fst run = Dir (Some old') kids /\ flat_state Hb matches C cdig (S n) old' kids /\
+    verify_result Hb matches C cdig false (fst run) [] [] = Some (mkVR 0 [] [] []) /\
+    verify_result Hb matches C cdig true (fst run) [] [] = Some (mkVR 0 [] [] []).
+Proof. exact flat_cycle. Qed.
+Print Assumptions C03_flat_cycle.
+
+(* files and folders that appear between runs do not disturb what is recorded: the invariant on the recorded part
+   survives any change of the tree that keeps the bytes of every recorded file *)
+Theorem C03_unrecorded_changes_keep_invariant : forall Hb C cdig n old kids kids',
+  flat_ok Hb C cdig n old kids -> keeps_recorded C old kids kids' -> flat_ok Hb C cdig n old kids'.
+Proof. exact flat_ok_grow. Qed.
+Print Assumptions C03_unrecorded_changes_keep_invariant.
 
 (* DETECTION, relative to the loaded histories and whatever the tree looks like now: an altered file is named and gives 11;
    an unrecorded file is named and gives 21 unless something was altered; a recorded path that is neither visited nor
